@@ -45,6 +45,8 @@ uint64_t vf_nd(uint32_t key, uint64_t lo, uint64_t hi);   /* signed range [lo,hi
 double vf_nd_double(uint32_t key);       /* arbitrary double, incl. NaN/inf (harness constrains it) */
 float vf_nd_float(uint32_t key);
 void vf_assume(uint32_t c);
+uint32_t vf_uuid_serial_of(uint8_t* s);
+void vf_objcopy(uint8_t* dst, uint8_t* src, uint64_t n);
 void vf_fail(uint8_t* what);
 void vf_bound(uint8_t* what);
 uint64_t vf_strtoll(uint8_t* s, uint64_t n, uint64_t* used, uint32_t* err);
